@@ -3,9 +3,9 @@ From HostdBase Require Import Base.
 From HostdMDM Require Import Model Proofs.
 Local Open Scope N_scope.
 
-Theorem c14_acc_fixed_no_panic : forall d off n, pd_ok d -> pd_fixed d off n <> Panic.
-Proof. exact pd_fixed_no_panic. Qed.
-Print Assumptions c14_acc_fixed_no_panic.
+Theorem c14_accessors_no_panic : forall a d off len, pd_ok d -> run_acc (a, d, off, len) <> Panic.
+Proof. exact run_acc_no_panic. Qed.
+Print Assumptions c14_accessors_no_panic.
 
 Example c14_nonvacuous : pd_fixed (mkpd 8 [1;2;3;4;5;6;7;8] 0 []) 0 8 = Ok tt.
 Proof. vm_compute; reflexivity. Qed.
